@@ -135,12 +135,17 @@ func TestVerif_C14_CloseReasons(t *testing.T) {
 				payload := append([]byte{byte(code >> 8), byte(code)}, reason...)
 				f := refws.Frame{Fin: true, Opcode: 8, Masked: role == refws.RoleServer, Key: [4]byte{9, 8, 7, 6}, Payload: payload}
 				wire, _ := refws.Gen([]refws.Frame{f})
+				verifC14HookOnce.Do(func() { VerifHook = verifC14Hook })
 				nc := &verifC14Conn{r: bytes.NewReader(wire)}
 				c := newConn(nc, role == refws.RoleServer, 256, 256)
 				rep := map[string]interface{}{"role": role.String(), "code": code, "reason_len": n, "kind": kind}
 				m.Guard("ws.closereasons", wire, func() {
 					_, _, err := c.ReadMessage()
 					_, _, err2 := c.ReadMessage()
+					if verifC14Stalled(c) {
+						m.Count("runs_set_aside_after_a_stall_of_more_than_one_second", 1) // see verifC14Hook
+						return
+					}
 					ps := refws.ParseLog(role, false, nc.w.Bytes()) // what the endpoint (of this role) wrote back
 					var codes []int
 					for _, ev := range ps.Controls(8) {
